@@ -235,9 +235,16 @@ theorem hostKey_canonHost (ace puny : Str → Str) (hp : PunyLaws puny)
 
 /-! ### text components keep their decoded bytes -/
 
+theorem pctStr_safelyQuoteBy {f : Char → Bool} (hf : SafeSet f) (s : Str) :
+    pctStr (safelyQuoteBy f s) = pctStr s := by
+  unfold pctStr safelyQuoteBy
+  rw [tokens_render_of_canon _ (canon_quoteToksBy hf (wf_tokens s)), pct_quoteToksBy]
+
 theorem pctStr_safelyQuote (s : Str) : pctStr (safelyQuote s) = pctStr s := by
-  unfold pctStr safelyQuote
-  rw [tokens_render_of_canon _ (canon_quoteToks (wf_tokens s)), pct_quoteToks]
+  rw [safelyQuote_eq_by]; exact pctStr_safelyQuoteBy safeSet_quoteSafe s
+
+theorem pctStr_quoteQueryItem (s : Str) : pctStr (quoteQueryItem s) = pctStr s :=
+  pctStr_safelyQuoteBy safeSet_quoteSafeQ s
 
 theorem pctStr_safelyUnquote (U : List UInt8) (hU : (0x25 : UInt8) ∈ U) (s : Str) :
     pctStr (safelyUnquote U s) = pctStr s := by
@@ -382,15 +389,15 @@ theorem wf_unquoteQsl (qsl : List (Str × Option Str)) (h : ∀ kv ∈ qsl, Item
       exact not_mem_safelyUnquote _ sep_amp (by decide) (by decide) v0 (h0.2.2 v0 rfl)
 
 /-- a character that `quote` escapes does not occur in the output of `safely_quote` -/
-theorem not_mem_safelyQuote {c : Char} (hc : Sep c) (hq : quoteSafe c = false) (s : Str) :
-    c ∉ safelyQuote s := by
+theorem not_mem_safelyQuoteBy {f : Char → Bool} {c : Char} (hc : Sep c) (hq : f c = false) (s : Str) :
+    c ∉ safelyQuoteBy f s := by
   intro hmem
-  simp only [safelyQuote, render, quoteToks, List.mem_flatMap] at hmem
+  simp only [safelyQuoteBy, render, quoteToksBy, List.mem_flatMap] at hmem
   obtain ⟨t', ⟨t, ht, ht'⟩, hch⟩ := hmem
   have hw := wf_tokens s t ht
   cases t with
   | raw c0 =>
-    simp only [quoteTok] at ht'
+    simp only [quoteTokBy] at ht'
     split at ht'
     · rename_i hs
       simp only [List.mem_singleton] at ht'
@@ -407,7 +414,7 @@ theorem not_mem_safelyQuote {c : Char} (hc : Sep c) (hq : quoteSafe c = false) (
       · rw [e] at hc; have := hc.2; rw [hcan.1] at this; cases this
       · rw [e] at hc; have := hc.2; rw [hcan.2] at this; cases this
   | esc h1 h2 =>
-    simp only [quoteTok, List.mem_singleton] at ht'
+    simp only [quoteTokBy, List.mem_singleton] at ht'
     subst ht'
     simp only [renderTok, List.mem_cons, List.not_mem_nil, or_false] at hch
     rcases hch with e | e | e
@@ -415,7 +422,7 @@ theorem not_mem_safelyQuote {c : Char} (hc : Sep c) (hq : quoteSafe c = false) (
     · rw [e] at hc; have := hc.2; rw [hw.1] at this; cases this
     · rw [e] at hc; have := hc.2; rw [hw.2] at this; cases this
   | stray =>
-    simp only [quoteTok, List.mem_singleton] at ht'
+    simp only [quoteTokBy, List.mem_singleton] at ht'
     subst ht'
     simp only [renderTok, List.mem_cons, List.not_mem_nil, or_false] at hch
     rcases hch with e | e | e
@@ -423,18 +430,25 @@ theorem not_mem_safelyQuote {c : Char} (hc : Sep c) (hq : quoteSafe c = false) (
     · rw [e] at hc; exact absurd hc.2 (by decide)
     · rw [e] at hc; exact absurd hc.2 (by decide)
 
+theorem not_mem_safelyQuote {c : Char} (hc : Sep c) (hq : quoteSafe c = false) (s : Str) :
+    c ∉ safelyQuote s := by
+  rw [safelyQuote_eq_by]; exact not_mem_safelyQuoteBy hc hq s
+
+theorem not_mem_quoteQueryItem {c : Char} (hc : Sep c) (hq : quoteSafeQ c = false) (s : Str) :
+    c ∉ quoteQueryItem s := not_mem_safelyQuoteBy hc hq s
+
 theorem wf_quoteQsl (qsl : List (Str × Option Str)) : ∀ kv ∈ quoteQsl qsl, ItemWf kv := by
   intro kv hkv
   simp only [quoteQsl, List.mem_map] at hkv
   obtain ⟨⟨k, v⟩, _, rfl⟩ := hkv
-  refine ⟨not_mem_safelyQuote sep_amp (by decide) k, not_mem_safelyQuote sep_eq (by decide) k, ?_⟩
+  refine ⟨not_mem_quoteQueryItem sep_amp (by decide) k, not_mem_quoteQueryItem sep_eq (by decide) k, ?_⟩
   intro v' hv'
   cases v with
   | none => simp at hv'
   | some v0 =>
     simp only [Option.map_some, Option.mem_def, Option.some.injEq] at hv'
     subst hv'
-    exact not_mem_safelyQuote sep_amp (by decide) v0
+    exact not_mem_quoteQueryItem sep_amp (by decide) v0
 
 /-- the decoded view of a query item -/
 def pctItem (kv : Str × Option Str) : List UInt8 × Option (List UInt8) :=
@@ -466,8 +480,8 @@ theorem canonQuery_items (quoted : Bool) (q : Str) :
     apply List.map_congr_left
     intro kv _
     obtain ⟨k, v⟩ := kv
-    simp only [Function.comp, pctItem, unquoteQueryItem, pctStr_safelyQuote,
+    simp only [Function.comp, pctItem, unquoteQueryItem, pctStr_quoteQueryItem,
       pctStr_safelyUnquote _ hU]
-    cases v <;> simp [pctStr_safelyQuote, pctStr_safelyUnquote _ hU]
+    cases v <;> simp [pctStr_quoteQueryItem, pctStr_safelyUnquote _ hU]
 
 end Ural.Canonicalize
